@@ -49,8 +49,18 @@ def bounds(tier):
             'window': 'START, END, no lookups'}
 
 
+SOCKETISH = ('sock', 'bind', 'connect', 'listen', 'accept', 'send', 'recv', 'shutdown', 'peer', 'close', 'fcntl', 'ioctl')
+
+
 def structures(tier):
-    return [{'name': n} for n in sweep.decoder_names()]
+    sts = [{'name': n} for n in sweep.decoder_names()]
+    # calls on a descriptor after the call that created it was decoded by the same parser (state kept per descriptor)
+    for n in sweep.decoder_names():
+        if any(k in n for k in SOCKETISH) and (tier == 'thorough' or sweep.weight({'name': n}) == 1 or 'sockopt' in n):
+            sts.append({'name': n, 'after': 'BSC_socket'})
+            if tier == 'thorough':
+                sts.append({'name': n, 'after': 'BSC_open'})
+    return sts
 
 
 def _site():
@@ -295,7 +305,7 @@ def copy_for(overrides):
     return c
 
 
-def _window(ctx, name, a, r, overrides):
+def _window(ctx, name, a, r, overrides, prior=()):
     install_proxies()
     cp = copy_for(overrides)
     _state['used'] = set()
@@ -317,7 +327,7 @@ def _window(ctx, name, a, r, overrides):
     enum.EnumType.__iter__ = rec_iter
     try:
         with cp:
-            o = sweep.run_window(ctx, name, a, r)
+            o = sweep.run_window(ctx, name, a, r, prior=prior)
     finally:
         enum.EnumType.__call__ = real_call
         enum.EnumType.__iter__ = real_iter
@@ -371,12 +381,20 @@ def run(ctx, st):
     name = st['name']
     a = [ctx.int('a%d' % i) for i in range(4)]
     r = [ctx.int('r%d' % i) for i in range(4)]
-    o1, used = _window(ctx, name, a, r, {})
+    prior = ()
+    if st.get('after'):
+        # the creating call succeeded and returned a descriptor (free; may or may not be the one the judged call uses)
+        cw = [ctx.int('c%d' % i) for i in range(4)]
+        if st['after'] == 'BSC_socket':
+            # bounded: three address families, one socket type (each enum-typed word of the earlier call multiplies the paths)
+            ctx.assume(And(Or(cw[0] == 1, cw[0] == 2, cw[0] == 30), cw[1] == 1))
+        prior = [(st['after'], cw, [0, ctx.int('cfd'), 0, 0])]
+    o1, used = _window(ctx, name, a, r, {}, prior)
     if o1.kind == 'text':
         ctx.observe('text-on-platform-A', o1.text)
     kinds = sorted({k for k, _ in used})
     for k in kinds:
-        o2, used2 = _window(ctx, name, a, r, {k: platform_b(k, _a_value(k))})
+        o2, used2 = _window(ctx, name, a, r, {k: platform_b(k, _a_value(k))}, prior)
         sites = sorted({s for kk, s in used | used2 if kk == k}) or ['?']
         if o1.kind == 'text' and o2.kind == 'text':
             same = _texts_equal(o1.pieces, o2.pieces) if ctx.symbolic else (o1.text == o2.text)
